@@ -62,6 +62,12 @@ def configs(tier, seed):
                         continue
                     cfgs.append(dict(name="mwem:%s:bounded%d:r%d:%s" % (noise, bounded, rounds, nb), mech="mwem", noise=noise, bounded=bounded,
                                      rounds=rounds, nb=nb, sizes=(2, 2, 2), cost=5 * rounds, timeout=900))
+    # two attributes, one workload clique, rounds = 5: the loop runs three iterations (annealing in an early round changes the cost of later ones)
+    cfgs.append(dict(name="aim2:r5:remove", mech="aim", rounds=5, nb="remove", sizes=(2, 2), attrs="ab", workload=[("a", "b")], depth=4,
+                     cost=60, timeout=1500, max_paths=600))
+    if tier == "thorough":
+        cfgs.append(dict(name="aim2:r7:add", mech="aim", rounds=7, nb="add", sizes=(2, 2), attrs="ab", workload=[("a", "b")], depth=6,
+                         cost=200, timeout=3000, max_paths=3000, core=False))
     for rounds in ([2, 3] if tier == "quick" else [1, 2, 3, 4]):
         for nb in (["remove"] if tier == "quick" else ["remove", "add"]):
             cfgs.append(dict(name="aim:r%d:%s" % (rounds, nb), mech="aim", rounds=rounds, nb=nb, sizes=(2, 2, 2), depth=3 if tier == "quick" else 4,
@@ -105,11 +111,12 @@ def flow_triples(V, T, runs, D, outs):
 
 
 def scenario_for(cfg):
-    attrs, sizes = ["a", "b", "c"], tuple(cfg["sizes"])
+    attrs, sizes = list(cfg.get("attrs", "abc")), tuple(cfg["sizes"])
 
     def scenario(V):
         mbi = common.mbi_for(V)
         recD, recD2 = neighbours(cfg["nb"])
+        recD, recD2 = [r[:len(attrs)] for r in recD], [r[:len(attrs)] for r in recD2]
         datas = [mech.dataset(mbi, attrs, sizes, recD), mech.dataset(mbi, attrs, sizes, recD2)]
         T = []
         picks = {}
@@ -133,19 +140,24 @@ def scenario_for(cfg):
             budget = V.env.setdefault("eps" if pure else "rho", 1.0 if pure else cdp.cdp_rho(1.0, 1e-6))
         for rid, data in enumerate(datas):
             run = mech.new_run()
-            rec = mech.MechRecorder(V, rid, picks)
-            with mech.module_env(V, mods, rec, run, budget):
-                if name == "mst":
-                    out = mod.MST(data, 1.0, 1e-6)
-                elif name == "mwem":
-                    eps_arg = budget if pure else 1.0
-                    out = mod.mwem_pgm(data, eps_arg, 1e-6, workload=[("a", "b"), ("b", "c")], rounds=cfg["rounds"], noise=cfg["noise"],
-                                       bounded=cfg["bounded"], pgm_iters=5)
-                elif name == "aim":
-                    M = mod.AIM(1.0, 1e-6, rounds=cfg["rounds"], max_model_size=80)
-                    _AIM_DEPTH["n"] = 0
-                    _AIM_DEPTH["max"] = cfg["depth"]
-                    out = M.run(data, [(("a", "b"), 1.0), (("b", "c"), 1.0)])
+            rec = mech.MechRecorder(V, rid, picks, reference=runs[0][0] if rid == 1 else None)
+            try:
+              with mech.module_env(V, mods, rec, run, budget):
+                  if name == "mst":
+                      out = mod.MST(data, 1.0, 1e-6)
+                  elif name == "mwem":
+                      eps_arg = budget if pure else 1.0
+                      out = mod.mwem_pgm(data, eps_arg, 1e-6, workload=[("a", "b"), ("b", "c")], rounds=cfg["rounds"], noise=cfg["noise"],
+                                         bounded=cfg["bounded"], pgm_iters=5)
+                  elif name == "aim":
+                      M = mod.AIM(1.0, 1e-6, rounds=cfg["rounds"], max_model_size=80)
+                      _AIM_DEPTH["n"] = 0
+                      _AIM_DEPTH["max"] = cfg["depth"]
+                      wl = cfg.get("workload") or [("a", "b"), ("b", "c")]
+                      out = M.run(data, [(tuple(cl), 1.0) for cl in wl])
+            except mech.Divergence as e:
+                T.append(("C06:lock-step: " + str(e), False, True))
+                return T
             runs.append((rec.events, run))
             outs.append(out)
         ch, Ts = mech.charges(V, runs[0][0], runs[1][0], zcdp=not pure)
